@@ -706,7 +706,12 @@ func (db *RockDB) DelIfEQ(ts int64, rawKey []byte, oldV []byte) (int64, error) {
 
 func (db *RockDB) SetRange(ts int64, rawKey []byte, offset int, value []byte) (int64, error) {
 	if len(value) == 0 {
-		return 0, nil
+		// nothing to write: the reply is the current length of the string (as redis does)
+		keyInfo, realV, err := db.getDBKVRealValueAndHeader(ts, rawKey, false)
+		if err != nil || keyInfo.Expired {
+			return 0, err
+		}
+		return int64(len(realV)), nil
 	}
 	if len(value)+offset > MaxValueSize {
 		return 0, errValueSize
